@@ -695,6 +695,12 @@ def poly_center_frac(vs):
     return sx_ / (3 * a2) + mx, sy_ / (3 * a2) + my
 
 
+# c = roi.copy(), then a vertex edit of the ORIGINAL (fork*: go on with the copy) or of the COPY (c*: go on
+# with the original): the object that is observed must be the region it was (F24, fixed)
+FORK_EDITS = {"forkadd": ("orig", "add"), "forkrepl": ("orig", "repl"), "forkrem": ("orig", "rem"),
+              "cadd": ("copy", "add"), "crepl": ("copy", "repl"), "crem": ("copy", "rem")}
+
+
 def final_spec(spec, ops):
     """the region the prescribed rigid motions lead to (exact rationals, then rounded to doubles)."""
     k = spec[0]
@@ -706,11 +712,13 @@ def final_spec(spec, ops):
                 cur = (Fraction(1), Fraction(0))
             if not isinstance(o, list):
                 continue
-            if o[0] in ("def", "add", "repl", "rem", "forkadd"):
+            if o[0] in FORK_EDITS:
+                continue
+            if o[0] in ("def", "add", "repl", "rem"):
                 if o[0] == "def":
                     vs = [(frac(v[0]), frac(v[1])) for v in o[2][1:]]
                     cur = (Fraction(1), Fraction(0))
-                elif o[0] in ("add", "forkadd"):
+                elif o[0] == "add":
                     vs = vs + [(frac(o[1]), frac(o[2]))]
                 elif o[0] == "repl":
                     vs = vs[:-1] + [(frac(o[1]), frac(o[2]))]
@@ -1147,9 +1155,17 @@ class Ops(Family):
                 ops.append("copy")
             elif c < 0.9:
                 ops.append("rt")
+            elif kind == "poly" and c < 0.96:
+                ops.append(self.gen_forkedit(rng, spec))
             else:
                 ops.append("fork")
         return ops
+
+    @staticmethod
+    def gen_forkedit(rng, spec):
+        """copy, then add_point / replace_last_point / remove_point on one of the two polygon objects."""
+        v0 = (frac(spec[1][0]), frac(spec[1][1]))
+        return [rng.choice(sorted(FORK_EDITS)), qx(dy(rng, -8, 8, 2) + v0[0].__floor__()), qx(dy(rng, -8, 8, 2) + v0[1].__floor__())]
 
     def build(self, rng, kind, mode, nops):
         spec = GENS[kind](rng, mode)
@@ -1244,7 +1260,7 @@ class Ops(Family):
 
     def finish_redef(self, rng, spec, ops, mode):
         """test points on the region the exact mirror of the prescribed semantics predicts (placement only)."""
-        fin = final_spec(spec, [o for o in ops if not (isinstance(o, list) and o[0] == "forkadd")])
+        fin = final_spec(spec, ops)
         sizes = [roi_size(spec), roi_size(fin)] + [roi_size(o[2]) for o in ops if isinstance(o, list) and o[0] == "def"]
         scale = max(sizes)
         eps = scale * Fraction(1, 10 ** 6)
@@ -1313,11 +1329,32 @@ class Ops(Family):
                     ops.append(self.gen_edit(rng, spec, ops))
             for _ in range(rng.randint(0, 2)):
                 c = rng.random()
-                ops.append(self.gen_transform(rng, kind) if c < 0.8 else rng.choice(["copy", "rt", "fork"]))
+                if kind == "poly" and c >= 0.9:
+                    ops.append(self.gen_forkedit(rng, spec))
+                else:
+                    ops.append(self.gen_transform(rng, kind) if c < 0.8 else rng.choice(["copy", "rt", "fork"]))
         return self.finish_redef(rng, spec, ops, mode)
+
+    def fork_core(self, rng):
+        """exhaustive short core for F24: (transform) -> copy + vertex edit of the other object -> (transform /
+        second fork / own edit) -> contains; every edit, both directions."""
+        tri = ["poly", [0, 0], [4, 0], [0, 3]]
+        pent = ["poly", [0, 0], [6, 0], [6, 6], [3, 2], [0, 6]]
+        pres = [[], [["rot", ["q", 3, 5], ["q", 4, 5], 0]], [["move", 5, -3]], ["rt"], [["add", 5, 5]]]
+        posts = [[], [["rot", 0, 1, 0]], [["move", -7, 2]], [["add", 2, 7]], [["repl", -2, 4]], ["copy"], ["fork"]]
+        for base in (tri, pent):
+            for name in sorted(FORK_EDITS):
+                xy = [3, 2] if FORK_EDITS[name][1] == "rem" and base is pent else ([0, 3] if FORK_EDITS[name][1] == "rem" else [9, 9])
+                for a in pres:
+                    for b in posts:
+                        yield self.finish_redef(rng, base, a + [[name] + xy] + b, "dy")
+            # two forks in a row, in both directions (the copy of a copy, the original edited twice)
+            for n1, n2 in (("forkadd", "forkrepl"), ("cadd", "forkadd"), ("forkrepl", "crepl"), ("crem", "cadd")):
+                yield self.finish_redef(rng, base, [[n1, 9, 9], [n2, -3, 5], ["move", 1, 1]], "dy")
 
     def cases(self, tier, rng):
         yield from self.redef_core(rng, tier)
+        yield from self.fork_core(rng)
         kinds3 = ("poly", "rect", "ellipse", "poly", "circle", "annulus", "range", "poly", "rect")
         for i in range(450 if tier == "quick" else 5000):
             yield self.redef_random(rng, kinds3[i % len(kinds3)], "dy" if rng.random() < 0.6 else "fl")
@@ -1401,11 +1438,26 @@ class Ops(Family):
                 roi.replace_last_point(fl(o[1]), fl(o[2]))
             elif o[0] == "rem":
                 roi.remove_point(fl(o[1]), fl(o[2]))
-            elif o[0] == "forkadd":
+            elif o[0] in FORK_EDITS:
+                who, what = FORK_EDITS[o[0]]
                 c = roi.copy()
+                if type(c) is not type(roi):
+                    return "copy-changes-class"
+                other, seen = (roi, c) if who == "orig" else (c, roi)
                 if spec[0] == "poly":
-                    roi.add_point(fl(o[1]), fl(o[2]))      # in-place edit of the ORIGINAL: the copy must not follow
-                roi = c
+                    # in-place edit of ONE object: the other one must not follow
+                    n0 = len(other.vx)
+                    if what == "add":
+                        other.add_point(fl(o[1]), fl(o[2]))
+                    elif what == "repl":
+                        other.replace_last_point(fl(o[1]), fl(o[2]))
+                    else:
+                        other.remove_point(fl(o[1]), fl(o[2]))
+                    # the edit itself must have happened on the edited object
+                    if len(other.vx) != n0 + {"add": 1, "repl": 0, "rem": -1 if n0 else 0}[what] or len(other.vx) != len(other.vy):
+                        return "fork-edit-not-applied"
+                    keep.append(other)
+                roi = seen
             elif o[0] == "move":
                 if isrange:
                     roi.move_to(fl(o[1]) if spec[1] == "x" else fl(o[2]))
@@ -1473,7 +1525,7 @@ class Ops(Family):
         closed = case[0][0] == "poly" and len(case[0]) > 2 and case[0][1] == case[0][-1]
         half = any(isinstance(o, list) and o[0] == "rot" and o[1] == -1 and o[2] == 0 for o in ops)
         sig = {"class": case[0][0], "ops": "+".join(kinds), "closed-polygon": closed, "half-turn": half,
-               "copy-then-edit-original": case[0][0] == "poly" and "forkadd" in kinds}
+               "copy-then-edit-original": case[0][0] == "poly" and any(k in FORK_EDITS for k in kinds)}
         if case[0][0] == "poly" and len(case[0]) > 4:
             # a polygon whose signed area is exactly zero (bow-tie, collinear vertices) that is turned and moved afterwards
             vs = [(frac(v[0]), frac(v[1])) for v in case[0][1:]]
@@ -1625,6 +1677,23 @@ class Proj(Family):
             res = roi.contains3d(x, y, z)
         except UndefinedROI:
             return "undefined"
+        if np.size(res) <= 4096:
+            # F24: a copy owns its 2-d region and its matrix - moving / turning the original afterwards
+            # (Projected3dROI forwards move_to / rotate_to to roi_2d) or editing its matrix in place must not reach it
+            obs = roi.copy()
+            if type(obs) is not type(roi) or type(obs.roi_2d) is not type(roi2):
+                return "copy-changes-class"
+            if spec[0] == "range":
+                roi2.move_to(12345.0)
+            else:
+                roi.move_to(12345.0, -777.0)
+                if spec[0] in ("rect", "ellipse", "poly"):
+                    roi.rotate_to(1.0)
+                if spec[0] == "poly":
+                    roi2.add_point(-4321.0, 99.0)
+            roi.projection_matrix[:, 3] += 1000.0
+            if bits(obs.contains3d(x, y, z)) != bits(res):
+                return "copy-follows-original"
         return [list(np.shape(res)), bits(res)]
 
     def nontrivial(self, case, po):
@@ -1749,6 +1818,12 @@ class Cat(Family):
         a, b = roi.contains(x, None), roi2.copy().contains(x, None)
         if bits(a) != bits(b):
             return "copy-or-restore-differs"
+        if cats:
+            # F24: the copy owns its array of categories
+            c = roi.copy()
+            roi.categories[0] = "~"
+            if bits(c.contains(x, None)) != bits(a):
+                return "copy-follows-original"
         return bits(a)
 
     def nontrivial(self, case, po):
@@ -1789,6 +1864,7 @@ THEOREMS = [
     "C08.redefine_conventions",
     "C08.stale_theta_witness",
     "C08.copy_shares_vertices_witness",
+    "C08.copy_independent",
     "C08.copy_same",
     "C08.params_roundtrip",
     "C08.restore_same",
